@@ -655,7 +655,7 @@ M.loop(P_SEP + ':ParserFromSequenceOfParsers.parse', 0,
 # ============================================================================== the document parser
 # Lists of section elements are symbolic lists of objects (by handle); `is_item` compares an element of such a
 # list with an object.
-from contracts.common import is_item
+from contracts.common import is_item, conj, slot, snapshot_lists
 from exactly_lib.section_document.impl import document_parser as dp
 
 P_DP = 'exactly_lib.section_document.impl.document_parser'
@@ -725,4 +725,140 @@ M.contract(P_DP + ':_add_raw_doc', params=dict(added_to=RAW_DOC3, to_add=RAW_DOC
                'the added document is not changed': lambda to_add, old:
                list(to_add.keys()) == list(old[1].keys())
                and all(same_items(to_add[k], old[1][k]) for k in old[1].keys()),
+           }, raises_only=())
+
+
+# ---- the state of _Impl
+
+from pyvc.api import PDictOf
+from pyvc.pdict import PDict
+from exactly_lib.test_case import phase_identifier
+from exactly_lib.section_document.element_builder import SectionContentElementBuilder
+from exactly_lib.util.line_source import Line
+
+# the sections of a test case: the names the program configures (read from the module, never copied)
+SECTION_NAMES = tuple(p.section_name for p in phase_identifier.ALL)
+SECTION_NAME = OneOf(*SECTION_NAMES)
+
+
+class PathI(Interface):
+    """pathlib.Path: environment.  Equal paths have equal keys (the key stands for the path's value)."""
+    attrs = {'key': Int}
+    eq_attr = 'key'
+
+
+PATH = Iface(PathI)
+
+SOURCE_LOCATION_CHAIN = ListOf(Any_)
+FILE_LOCATION = Inst(FileLocationInfo,
+                     _abs_path_of_dir_containing_root_file_path=Any_,
+                     _file_path_rel_referrer=Any_,
+                     _file_inclusion_chain=SOURCE_LOCATION_CHAIN)
+
+
+def phase_parser_element(interp):
+    """what a parser of a phase returns: one of the three kinds of parsed elements (closed world: the
+    subclasses of ParsedSectionElement)"""
+    return PARSED_ELEMENT.make(interp, 'element')
+
+
+PARSED_INSTRUCTION = Inst(pse.ParsedInstruction, _source=LINE_SEQUENCE,
+                          _instruction_info=Inst(InstructionInfo, _tuple=[Any_, Any_]))
+PARSED_INCLUSION = Inst(pse.ParsedFileInclusionDirective, _source=LINE_SEQUENCE, _files_to_include=ListOf(PATH))
+PARSED_ELEMENT = Union(PARSED_INSTRUCTION, NON_INSTRUCTION, PARSED_INCLUSION)
+
+
+class PhaseParserI(Interface):
+    """the SectionElementParser of a phase (environment)"""
+    target_class = SectionElementParser
+    methods = {'parse': Method(model=section_parser_model(phase_parser_element))}
+
+
+def _mk_conf(interp, name):
+    conf = object.__new__(dp._SectionsConfigurationInternal)
+    conf.section2parser = {n: Iface(PhaseParserI).make(interp, '%s.parser[%s]' % (name, n)) for n in SECTION_NAMES}
+    conf._parser_for_default_section = None
+    conf.default_section_name = Opt(SECTION_NAME).make(interp, name + '.default_section_name')
+    conf.section_element_name_for_error_messages = Str.make(interp, name + '.section_element_name')
+    return conf
+
+
+SECTION_LISTS = PDictOf(SECTION_NAMES, ELEMENTS)
+
+
+def _mk_impl(interp, name):
+    """an _Impl in an arbitrary state (constrained by `impl_ok` in the contracts)"""
+    impl = object.__new__(dp._Impl)
+    impl.configuration = _mk_conf(interp, name + '.configuration')
+    impl._current_file_location = FILE_LOCATION.make(interp, name + '._current_file_location')
+    impl._file_reference_relativity_root_dir = PATH.make(interp, name + '._root_dir')
+    impl._document_source = PARSE_SOURCE.make(interp, name + '._document_source')
+    impl._current_line = Opt(Inst(Line, _tuple=[Int, Str])).make(interp, name + '._current_line')
+    impl._section_name_2_element_list = SECTION_LISTS.make(interp, name + '._lists')
+    impl._name_of_current_section = None
+    impl._parser_for_current_section = None
+    impl._elements_for_current_section = []
+    impl._element_constructor = dp._SectionElementParseResultHandler(
+        SectionContentElementBuilder(impl._current_file_location))
+    impl.visited_paths = ListOf(PATH).make(interp, name + '.visited_paths')
+    if interp.st.choose(2) == 1:
+        _enter_section(interp, impl, SECTION_NAME.make(interp, name + '._name_of_current_section'))
+    return impl
+
+
+def _enter_section(interp, impl, section_name):
+    """inside a section: the three fields about it are coherent (what set_current_section establishes)"""
+    section_name = interp.resolve(section_name)
+    d = impl._section_name_2_element_list
+    interp.st.assume(interp.truth(d.present[section_name]))
+    impl._name_of_current_section = section_name
+    impl._parser_for_current_section = impl.configuration.section2parser[section_name]
+    impl._elements_for_current_section = d.values[section_name]
+
+
+IMPL = Custom(_mk_impl)
+
+
+def in_section(self):
+    return self._name_of_current_section is not None
+
+
+def section_ok(self):
+    """the current section's parser is the configured one and its element list IS the list in the dictionary"""
+    if self._name_of_current_section is None:
+        return True
+    name = self._name_of_current_section
+    return name in self.configuration.section2parser \
+        and self._parser_for_current_section is self.configuration.section2parser[name] \
+        and name in self._section_name_2_element_list \
+        and self._elements_for_current_section is self._section_name_2_element_list[name]
+
+
+def lists_snapshot(self):
+    return snapshot_lists(self._section_name_2_element_list)
+
+
+def other_lists_unchanged(self, old_lists, but=None):
+    """every section that had a list still has it, with the same elements (except section `but`); no other
+    section has got one"""
+    d = self._section_name_2_element_list
+    return conj([implies(k in old_lists, k in d and same_items(slot(d, k), slot(old_lists, k)))
+                 and implies(k in d, k in old_lists)
+                 for k in SECTION_NAMES if k != but])
+
+
+M.contract(P_DP + ':_Impl.set_current_section',
+           params=dict(self=IMPL, section_name=SECTION_NAME),
+           old=lambda self: (lists_snapshot(self), self._document_source, self._current_line),
+           modifies=dict(self=dict(_name_of_current_section=Any_, _parser_for_current_section=Any_,
+                                   _elements_for_current_section=Any_)),
+           ensures={
+               'name-parser-and-list-of-the-section': lambda self, section_name:
+               self._name_of_current_section == section_name and section_ok(self),
+               'an-existing-list-is-kept-a-new-section-starts-empty': lambda self, section_name, old:
+               implies(section_name in old[0],
+                       same_items(self._elements_for_current_section, slot(old[0], section_name)))
+               and implies(section_name not in old[0], len(self._elements_for_current_section) == 0),
+               'other-sections-untouched': lambda self, section_name, old:
+               other_lists_unchanged(self, old[0], but=section_name),
            }, raises_only=())
